@@ -55,7 +55,7 @@ THEOREMS = [
         # public entry points (Props/C20Api.lean)
         "order_stats_dispatch order_stats_dispatch_tie order_stats_absent order_stats_broadcast_r order_stats_broadcast_n "
         "order_stats_broadcast_p order_stats_broadcast_c order_stats_scalar order_stats_broadcast_readAt "
-        "kfactor_elementwise_ksingle kfactor_elementwise_kdouble arguments_unchanged stats_effects_safe stats_consts_tie "
+        "kfactor_elementwise_ksingle kfactor_elementwise_kdouble arguments_unchanged stats_effects_safe stats_consts_tie stats_dtype_tie "
         # root finders (Props/C20Root.lean)
         "tail_strictMono_q bisect_brackets_root p_query_defined_iff p_query_bracket p_query_exists_unique p_query_close "
         "newton_monotone_convex newton_vector_stops "
@@ -90,7 +90,8 @@ RULE = (
     "table (8 `which` strings x 16 subsets of absent arguments) plus random calls whose three read arguments have shapes "
     "drawn from one broadcast target (rank 0-3, extents 0-4, 12 % made incompatible), 6 % of read arguments absent, the "
     "asked-for argument given in 25 %, values handed over as python scalars / numpy scalars / 0-d arrays / nested lists / "
-    "tuples / C-, F-ordered and strided arrays of int64, int32, float64; tol of kdouble in {1e-14 .. 1e-3}; non-trivial = "
+    "tuples / C-, F-ordered and strided arrays; integer arguments as int64, int32, float64, int8, uint8, int16, uint16 arrays "
+    "(every width that holds the values; unsigned only for values >= 1; findings F54/F55); tol of kdouble in {1e-14 .. 1e-3}; non-trivial = "
     "a value with at least one element comes back; Newton steps within 0.1 % of tol make the pass count undecidable in "
     "floating point: skipped and counted"
 )
@@ -98,8 +99,6 @@ ASSUMPTIONS = [
     "0 < p < 1, 0 < c < 1, r >= 1, n >= 1 (k-factors: n >= 2)",
     "order_stats('n'): the answer does not exceed r * 2**31 (beyond that the code raises ValueError; theorem n_total)",
     "float evaluation decides confidence comparisons correctly when |confidence - c| >= 1e-9",
-    "integer arguments are python ints or arrays of at least 32 bits (with 8/16-bit arrays the code computes in that "
-    "width: see the families *-narrow-int-* reported by the oracle)",
 ]
 PARTIAL = (
     "partial: the order-statistics half is proved outright (all linearly ordered fields), now including the public entry "
@@ -131,7 +130,8 @@ MANIFEST = {
     "stats_effects_safe on effect skeletons regenerated from the source). The constants and switch points of stats.py "
     "(doubling factor and limit, brentq brackets, MAXLOOPS, starting point, default tol, branch order, np.broadcast "
     "argument orders) are regenerated into Generated/C20Stats.lean on every run and checked by `decide` "
-    "(stats_consts_tie, order_stats_dispatch_tie). k-factors: ksingle/kdouble/_getr written against abstract distribution "
+    "(stats_consts_tie, order_stats_dispatch_tie), as are the conversions (`n = np.asarray(n, dtype=float)`, `r = int(r)`) that make "
+    "the answers independent of the integer dtype of the caller's arrays (stats_dtype_tie; findings F54/F55). k-factors: ksingle/kdouble/_getr written against abstract distribution "
     "kernels; from the specification 'strictly increasing cdf, ppf its inverse' the defining probability equations and "
     "strict monotonicity in p and c are proved; ksingle/kdouble on arrays are the scalar formulas elementwise with ONE "
     "Newton pass count per call (kfactor_elementwise_*); Newton's iterates in _getr are monotone and bounded after the "
@@ -152,6 +152,10 @@ MANIFEST = {
 }
 
 TIE = 1e-9
+# regression guards of repaired findings (fix cd7a6f7): integer arguments handed over as 8/16-bit numpy arrays
+FIXED_F54 = "order-stats-n-narrow-int-rank-array"
+FIXED_F55 = "kfactor-narrow-int-sample-size-array"
+INT_DTYPES = ("int64", "int32", "float64", "int8", "uint8", "int16", "uint16")
 
 
 def translate(ctx):
@@ -528,6 +532,22 @@ def _compatible_shapes(rng, k):
     return out
 
 
+def _int_dtype(rng, a):
+    """an integer (or float64) dtype that holds the values of `a`: every width from 8 bits on — since fix cd7a6f7 (F54, F55) the
+    code converts to float64 / Python int before it computes; unsigned only for values >= 1 (`r - 1` of the 'c' and 'p'
+    queries is done in the caller's dtype: r = 0 is outside the property's domain)"""
+    ok = []
+    for name in INT_DTYPES:
+        dt = np.dtype(name)
+        if dt.kind == "f" or not a.size:
+            ok.append(dt)
+            continue
+        info = np.iinfo(dt)
+        if a.min() >= (1 if dt.kind == "u" else info.min) and a.max() <= info.max:
+            ok.append(dt)
+    return rng.choice(ok)
+
+
 def _pack(rng, arr, kind):
     """hand a value to the implementation the way callers do: python scalars, lists, tuples, arrays of several dtypes and
     memory layouts; the array handed over is kept so that `unchanged` can be checked"""
@@ -548,9 +568,7 @@ def _pack(rng, arr, kind):
     if u < 0.4 and a.ndim == 1:
         return tuple(a.tolist())
     if kind == "i":
-        # integer arguments as python ints or arrays of at least 32 bits (ASSUMPTIONS): with 8/16-bit arrays the code's own
-        # arithmetic is done in that width (`b = 2 * a` overflows, np.sqrt(int8) is a float16): the oracle's `dtype` items
-        a = a.astype(rng.choice([np.int64, np.int32, np.float64]))
+        a = a.astype(_int_dtype(rng, a))
     if u < 0.6:
         return np.asfortranarray(a)
     if u < 0.75 and a.size:
@@ -704,7 +722,7 @@ def _corr_api(ctx, stats, drv_lines):
         kind_i, val_i, held = _api_impl(stats, ctx.rng, w, args)
         kind_m, val_m = _parse_api_reply(line)
         absent = "".join(k for k in "pcnr" if args[k] is None)
-        inp = {"which": w, "absent": absent,
+        inp = {"which": w, "absent": absent, "dtypes": {k: v.dtype.name for k, v, _ in held if k in "nr"},
                **{k: (None if args[k] is None else {"shape": list(args[k].shape), "values": [str(x) for x in args[k].ravel()]}) for k in "pcnr"}}
         br = ("api:" + kind_m.replace("err ", "")) if kind_m.startswith("err") else "api:%s:%s" % (w, "scalar" if kind_m in ("pyint", "npint", "npfloat") else "array")
         nontriv = not kind_m.startswith("err") and (np.size(val_m) > 0)
@@ -823,7 +841,8 @@ def _corr_kapi(ctx, stats, drv_lines):
             bp = bc = bn = None
         args = [_pack(rng, p, "f"), _pack(rng, c, "f"), _pack(rng, n, "i")]
         held = [(v, v.copy()) for v in args if isinstance(v, np.ndarray)]
-        inp = {"p": p.tolist(), "c": c.tolist(), "n": n.tolist(), "shapes": [list(p.shape), list(c.shape), list(n.shape)]}
+        inp = {"p": p.tolist(), "c": c.tolist(), "n": n.tolist(), "shapes": [list(p.shape), list(c.shape), list(n.shape)],
+               "n_dtype": args[2].dtype.name if isinstance(args[2], np.ndarray) else type(args[2]).__name__}
         with warnings.catch_warnings():
             warnings.simplefilter("ignore")
             # ---- ksingle
@@ -1195,6 +1214,8 @@ def _o_apicall(stats, item):
         if v is None:
             continue
         a = np.array([float(x) if k in "pc" else int(x) for x in v["values"]], dtype=float if k in "pc" else np.int64).reshape(v["shape"])
+        if k in (item.get("dtypes") or {}) and a.ndim:
+            a = a.astype(item["dtypes"][k])
         kw[k] = a if a.ndim else (float(a) if k in "pc" else int(a))
     keep = {k: (v.copy() if isinstance(v, np.ndarray) else v) for k, v in kw.items()}
     try:
@@ -1280,6 +1301,8 @@ def _gen_apicall(rng):
         else:
             vals = [rng.randint(1, 4) if rng.random() < 0.85 else rng.randint(0, 9) for _ in range(size)]
         item[k] = {"shape": list(sh), "values": [str(v) for v in vals]}
+        if k in "nr" and sh:
+            item.setdefault("dtypes", {})[k] = _int_dtype(rng, np.array(vals if vals else [1])).name
     return item
 
 
@@ -1288,6 +1311,8 @@ def _o_kcall(stats, item):
     out = []
     inp = dict(item)
     arrs = [np.array(item[k]["values"], dtype=float if k != "n" else np.int64).reshape(item[k]["shape"]) for k in "pcn"]
+    if item.get("n_dtype") in INT_DTYPES and arrs[2].ndim:
+        arrs[2] = arrs[2].astype(item["n_dtype"])
     try:
         bshape = np.broadcast_shapes(*[a.shape for a in arrs])
     except ValueError:
@@ -1334,6 +1359,7 @@ def _gen_kcall(rng):
         else:
             vals = [rng.randint(2, 12) if rng.random() < 0.5 else rng.randint(2, 3000) for _ in range(size)]
         item[k] = {"shape": list(sh), "values": vals}
+    item["n_dtype"] = _int_dtype(rng, np.array(item["n"]["values"] or [2])).name
     return item
 
 
@@ -1455,9 +1481,9 @@ def _o_kge(stats, item):
 
 
 def _o_dtype(stats, item):
-    """integer arguments handed over as 8/16-bit numpy arrays must give what python ints give (the property quantifies over
-    array arguments, the docstrings say `array_like; integer`).  On the unchanged tree they do not: `_run_brentq` doubles its
-    bracket in the dtype of r (`b = 2 * a` wraps around), and `np.sqrt` of an int8/uint8 array is a float16"""
+    """regression guard of F54 / F55 (fix cd7a6f7): integer arguments handed over as 8/16-bit numpy arrays give what python
+    ints give.  Before the fix `_run_brentq` doubled its bracket in the dtype of r (`b = 2 * a` wrapped around) and
+    `np.sqrt` of an int8/uint8 array was a float16."""
     out = []
     fn, dt, p, c, v = item["fn"], np.dtype(item["dtype"]), item["p"], item["c"], item["value"]
     inp = dict(item)
@@ -1470,7 +1496,7 @@ def _o_dtype(stats, item):
         if isinstance(ref, str):
             return out
         if isinstance(got, str) or np.shape(got) != (1,) or not abs(float(got[0]) - float(ref)) <= 1e-9 * max(1.0, abs(float(ref))):
-            out.append({"family": "kfactor-narrow-int-sample-size-array",
+            out.append({"family": FIXED_F55,
                         "what": "%s(p, c, n) with n an %s array differs from the same call with python ints" % (fn, dt.name),
                         "input": inp, "observed": got if isinstance(got, str) else np.asarray(got).tolist(), "required": [float(ref)]})
         return out
@@ -1483,7 +1509,7 @@ def _o_dtype(stats, item):
         return out
     ok = (not isinstance(got, str)) and np.shape(got) == (1,) and abs(float(np.asarray(got)[0]) - float(ref)) <= 1e-9
     if not ok:
-        out.append({"family": "order-stats-%s-narrow-int-%s-array" % (which, "rank" if key == "r" else "sample-size"),
+        out.append({"family": FIXED_F54 if which == "n" else "order-stats-%s-narrow-int-%s-array" % (which, "rank" if key == "r" else "sample-size"),
                     "what": "order_stats('%s') with %s an %s array differs from the same call with python ints" % (which, key, dt.name),
                     "input": inp, "observed": got if isinstance(got, str) else np.asarray(got).tolist(), "required": [ref if isinstance(ref, int) else float(ref)]})
     return out
@@ -1524,17 +1550,32 @@ def search(ctx, hints):
     stats = _stats()
     rng = ctx.rng
     items = []
+    # regression guards F54 / F55 first: integer arguments as narrow numpy arrays (fixed inputs, then the hints)
+    for dt in ("uint8", "int8", "int16", "uint16", "int32"):
+        items.append({"kind": "dtype", "fn": "n", "dtype": dt, "p": 0.99, "c": 0.9, "value": 1})
+        items.append({"kind": "dtype", "fn": "n", "dtype": dt, "p": 0.9, "c": 0.5, "value": rng.randint(1, 5)})
+        for v in (15, 21, rng.randint(2, 100)):
+            items.append({"kind": "dtype", "fn": "ksingle", "dtype": dt, "p": 0.99, "c": 0.9, "value": v})
+            items.append({"kind": "dtype", "fn": "kdouble", "dtype": dt, "p": 0.99, "c": 0.9, "value": v})
+        items.append({"kind": "dtype", "fn": "c", "dtype": dt, "p": 0.9, "c": 0.9, "n": 50, "value": rng.randint(1, 6)})
+        items.append({"kind": "dtype", "fn": "p", "dtype": dt, "p": 0.9, "c": 0.9, "n": 50, "value": rng.randint(1, 6)})
+        items.append({"kind": "dtype", "fn": "r", "dtype": dt, "p": 0.9, "c": 0.9, "value": rng.randint(5, 120)})
     for h in hints[:60]:
         i = h["input"]
         if "absent" in i:                        # a disagreement of the `api` stream: the same call, restated on the API
-            items.append({"kind": "apicall", "which": i["which"], **{k: i[k] for k in "pcnr"}})
+            items.append({"kind": "apicall", "which": i["which"], "dtypes": i.get("dtypes", {}), **{k: i[k] for k in "pcnr"}})
         elif i.get("which") in ("r", "n", "c"):
             items.append(dict(i, kind="order"))
         elif i.get("which") in ("ksingle", "kdouble", "newton"):
             items.append({"kind": "kfactor", "p": i["p"], "c": i["c"], "n": i["n"]})
         elif "shapes" in i:                      # a disagreement of the k-factor array streams
             arrs = {k: np.asarray(i[k]) for k in "pcn"}
-            items.append({"kind": "kcall", **{k: {"shape": list(a.shape), "values": a.ravel().tolist()} for k, a in arrs.items()}})
+            items.append({"kind": "kcall", "n_dtype": i.get("n_dtype"), **{k: {"shape": list(a.shape), "values": a.ravel().tolist()} for k, a in arrs.items()}})
+            if i.get("n_dtype") in INT_DTYPES:
+                for nn in np.unique(arrs["n"].ravel())[:3]:
+                    for fn in ("ksingle", "kdouble"):
+                        items.append({"kind": "dtype", "fn": fn, "dtype": i["n_dtype"], "p": float(arrs["p"].ravel()[0]) if arrs["p"].size else 0.9,
+                                      "c": float(arrs["c"].ravel()[0]) if arrs["c"].size else 0.9, "value": int(nn)})
             for pp in np.unique(arrs["p"].ravel())[:3]:
                 for nn in np.unique(arrs["n"].ravel())[:3]:
                     items.append({"kind": "kfactor", "p": float(pp), "c": float(arrs["c"].ravel()[0]) if arrs["c"].size else 0.9, "n": int(nn)})
@@ -1578,16 +1619,6 @@ def search(ctx, hints):
         items.append({"kind": "nctasym", "c": c, "df": df, "nc": nc})
     for p, c, n in _gen_k(ctx, ctx.pick(150, 800)):
         items.append({"kind": "kge", "p": p, "c": c, "n": n})
-    # integer arguments as narrow numpy arrays
-    for dt in ("uint8", "int8", "int16", "int32"):
-        items.append({"kind": "dtype", "fn": "n", "dtype": dt, "p": 0.99, "c": 0.9, "value": 1})
-        items.append({"kind": "dtype", "fn": "n", "dtype": dt, "p": 0.9, "c": 0.5, "value": rng.randint(1, 5)})
-        for v in (15, 21, rng.randint(2, 100)):
-            items.append({"kind": "dtype", "fn": "ksingle", "dtype": dt, "p": 0.99, "c": 0.9, "value": v})
-            items.append({"kind": "dtype", "fn": "kdouble", "dtype": dt, "p": 0.99, "c": 0.9, "value": v})
-        items.append({"kind": "dtype", "fn": "c", "dtype": dt, "p": 0.9, "c": 0.9, "n": 50, "value": rng.randint(1, 6)})
-        items.append({"kind": "dtype", "fn": "p", "dtype": dt, "p": 0.9, "c": 0.9, "n": 50, "value": rng.randint(1, 6)})
-        items.append({"kind": "dtype", "fn": "r", "dtype": dt, "p": 0.9, "c": 0.9, "value": rng.randint(5, 120)})
     for it in items:
         ctx.count("oracle:" + it["kind"])
         for f in _run_oracle(stats, it, rng):
